@@ -8,7 +8,7 @@ import (
 
 func init() {
 	register(&propDef{ID: "C02", Run: runC02,
-		Explain: "Structural necessary conditions of 'responses follow the Via chain', decided on the SSA/CFG of /repo: (1) in the response branch of HandleMessage exactly one PopVia on every path and before the hop lookup; (2) the only dispatch of that branch is guarded by the hop lookup's err==nil and takes host/port/transport from results 0,1,2 of that same call; (3) no dispatch is reachable on the failure edge; (4) inside the hop function the Via entry is GetParam(0) of GetVia(), their errors are returned, host = received on its success edge else sent-by host, port = rport on (received ok and rport numeric) else GetPort(), transport = the entry's transport; (5) PopVia removes one via-param when Size>=2 and the whole header otherwise, PopViaParam is delete-first; (6) ViaParam.GetPort returns the stored port when non-zero, else 5061 only under TLS, else 5060; (7) unsupported transports end in an error and sendMessage sends only on err==nil. This decides the shape of the code, not the behaviour on concrete messages.",
+		Explain:    "Structural necessary conditions of 'responses follow the Via chain', decided on the SSA/CFG of /repo: (1) in the response branch of HandleMessage exactly one PopVia on every path and before the hop lookup; (2) the only dispatch of that branch is guarded by the hop lookup's err==nil and takes host/port/transport from results 0,1,2 of that same call; (3) no dispatch is reachable on the failure edge; (4) inside the hop function the Via entry is GetParam(0) of GetVia(), their errors are returned, host = received on its success edge else sent-by host, port = rport on (received ok and rport numeric) else GetPort(), transport = the entry's transport; (5) PopVia removes one via-param when Size>=2 and the whole header otherwise, PopViaParam is delete-first; (6) ViaParam.GetPort returns the stored port when non-zero, else 5061 only under TLS, else 5060; (7) unsupported transports end in an error and sendMessage sends only on err==nil. This decides the shape of the code, not the behaviour on concrete messages.",
 		NotDecided: "history-level consequence (a response returns to the hop its request came from); name resolution; value-level Via decoding/encoding (C14)."})
 }
 
@@ -148,6 +148,9 @@ func runC02(c *Ctx) {
 	}
 	// (7) unsupported transport
 	c02Unsupported(c)
+	// (8) the stamp the hop is read from, and the header lookup behind "top Via" (shared with C07 / C17)
+	c07StampContent(c)
+	ruleHeaderFind(c, "pop-structure")
 }
 
 func c02HopProvenance(c *Ctx, hf *ssa.Function) {
@@ -287,6 +290,21 @@ func c02PopStructure(c *Ctx) { checkPopOne(c, "pop-structure", viaPop) }
 // header line otherwise; exactly one removal per call; the entry pop is delete-first.
 func checkPopOne(c *Ctx, rule string, sp popSpec) {
 	w := c.w
+	// the getter looks the header list up on every call: no cached "has such a header" state can hide later lines
+	if g := c.fn(rule, sp.Getter); g != nil {
+		var gh ssa.CallInstruction
+		for _, cs := range w.callsIn(g, "(*Message).GetHeader") {
+			if s, ok := constString(callArg(cs.In, 0)); ok && s == sp.Header && isParam(g, callArg(cs.In, -1), 0) {
+				gh = cs.In
+			}
+		}
+		good := false
+		if gh != nil {
+			isRet := func(in ssa.Instruction) bool { _, ok := in.(*ssa.Return); return ok }
+			good = !canReach(entryPt(g), nil, isRet, isInstr(gh))
+		}
+		c.check(good, rule, sp.Label+"/getter-reads-list", w.pos(g.Pos()), sp.Getter+" consults the header list on every call", sp.Getter+" can answer without looking "+sp.Header+" up in the header list (a cached flag or early return): after the first "+sp.Header+" line has been removed the remaining lines are not seen, so the request is no longer routed by them and they are relayed untouched")
+	}
 	pv := c.fn(rule, sp.Fn)
 	if pv != nil {
 		gvs := w.callsIn(pv, sp.Getter)
